@@ -34,10 +34,10 @@ def prepare(chk, thorough):
     chk.tlc(res, "WasmNum cases (%s operand set)" % ("boundary" if thorough else "small"))
     # structured control flow (WasmCtl.tla): programs of a bounded grammar, evaluated on three arguments
     with open(path, "a") as fh:
-        res2 = common.run_tlc("wasm", "WasmCtl", "ctlfull.cfg" if thorough else "ctl.cfg", collect_prefix='<<"T"', timeout=3000, line_cb=lambda l: fh.write(l + "\n"))
+        res2 = common.run_tlc("wasm", "WasmCtl", "ctl.cfg", collect_prefix='<<"T"', timeout=3000, line_cb=lambda l: fh.write(l + "\n"))
     if res2.violated:
         raise MachineryError("WasmCtl.tla disagrees with its hand-evaluated programs: " + res2.violated)
-    chk.tlc(res2, "WasmCtl programs (%s grammar)" % ("full" if thorough else "reduced"))
+    chk.tlc(res2, "WasmCtl programs (one compound statement per level; the grammar with a simple statement beside it, ctlfull.cfg, gives 81 000 functions - too many for one C translation unit)")
     out = os.path.join(d, "m")
     rc, so, se, to = common.run_child([b, "prep", path, out], timeout=600)
     if rc != 0:
